@@ -152,3 +152,81 @@ def run(chk, repo, tier):
     if not base:
         chk.violation(X1, m.rel, 'CovariateEffect.categorical', 'reference category value', 'the most common category must '
                       'have effect 1', line=cat.node.lineno, witness='the reference category changes the parameter')
+    run_more(chk, repo)
+
+
+# names that are fixed on purpose: later transformations look these statements up by name (read and confirmed)
+FIXED_OK = {
+    'W': 'weighted error / power-on-RUV convention: set_weighted_error_model and the TBS code find W by name',
+    'IPRED': 'TBS error model defines IPRED by name (PsN convention)',
+}
+ERR = 'pharmpy.modeling.error'
+
+
+def run_more(chk, repo):
+    X2 = chk.rule('X2', 'error model setters/detectors forward the requested dependent variable to every callee that '
+                        'takes one', floor=15)
+    X3 = chk.rule('X3', 'statements inserted by the error model setters define fresh symbols (create_symbol) unless the '
+                        'name is a listed convention', floor=4)
+    em = repo.module(ERR)
+    for f in em.functions.values():
+        if 'dv' not in f.all_params:
+            continue
+        # names that carry the requested dv: the parameter and anything assigned from get_dv_symbol(model, dv)
+        carriers = {'dv'}
+        for n in walk_no_nested(f.node):
+            if isinstance(n, ast.Assign) and isinstance(n.targets[0], ast.Name) and isinstance(n.value, ast.Call) \
+                    and 'dv' in {x.id for x in ast.walk(n.value) if isinstance(x, ast.Name)}:
+                carriers.add(n.targets[0].id)
+        for c in calls_in(f.node):
+            if not isinstance(c.func, ast.Name):
+                continue
+            tgt = repo.resolve(f.module, c.func.id)
+            if not tgt or tgt[0] != 'func' or 'dv' not in tgt[1].all_params:
+                continue
+            g = tgt[1]
+            idx = g.all_params.index('dv')
+            arg = c.args[idx] if len(c.args) > idx else next((k.value for k in c.keywords if k.arg == 'dv'), None)
+            ok = arg is not None and bool({x.id for x in ast.walk(arg) if isinstance(x, ast.Name)} & carriers)
+            if arg is not None and isinstance(arg, ast.Constant):
+                ok = True   # an explicit constant DV is a deliberate choice
+            chk.instance(X2, f'{f.name} -> {unparse(c)[:60]}: dv forwarded: {ok}')
+            if not ok:
+                chk.violation(X2, em.rel, f.qualname, unparse(c),
+                              f'`{g.name}` takes a dv but the requested dv is not passed: it answers for the first '
+                              f'dependent variable', line=c.lineno,
+                              witness='a model with two DVs where the first already has the error model: '
+                                      'set_..._error_model(model, dv=2) returns the model unchanged')
+    for f in em.functions.values():
+        origin: dict[str, set] = {}
+
+        def classify(v):
+            if isinstance(v, ast.IfExp):
+                return classify(v.body) | classify(v.orelse)
+            if isinstance(v, ast.Call):
+                fn = dotted(v.func) or ''
+                if fn.split('.')[-1] in ('create_symbol', '_create_symbol'):
+                    return {'fresh'}
+                if fn in ('Expr.symbol', 'sympy.Symbol', 'Symbol') and v.args and isinstance(v.args[0], ast.Constant):
+                    return {('fixed', v.args[0].value)}
+            if isinstance(v, ast.Name):
+                return origin.get(v.id, {'other'})
+            return {'other'}
+        for n in walk_no_nested(f.node):
+            if isinstance(n, ast.Assign) and len(n.targets) == 1 and isinstance(n.targets[0], ast.Name):
+                origin.setdefault(n.targets[0].id, set()).update(classify(n.value))
+        for c in calls_in(f.node):
+            fn = dotted(c.func) or ''
+            if fn not in ('Assignment', 'Assignment.create') or not c.args:
+                continue
+            o = classify(c.args[0])
+            fixed = sorted(x[1] for x in o if isinstance(x, tuple))
+            chk.instance(X3, f'{f.name}: {unparse(c)[:50]} defines {sorted(map(str, o))}')
+            for name in fixed:
+                if name in FIXED_OK:
+                    continue
+                chk.violation(X3, em.rel, f.qualname, unparse(c)[:80],
+                              f'the inserted statement defines the fixed name `{name}`; a second use in the same model '
+                              f'(other DV) re-defines it and the earlier definition shadows or is shadowed', line=c.lineno,
+                              witness='two DVs with different predictions, proportional error with zero protection set on '
+                                      'dv=1 and then dv=2: the second epsilon is scaled by the first prediction')
